@@ -948,7 +948,7 @@ static void string_initializer(Token **rest, Token *tok, Initializer *init) {
     break;
   }
   default:
-    unreachable();
+    error_tok(tok, "array of inappropriate type initialized from string constant");
   }
 
   *rest = tok->next;
